@@ -248,6 +248,10 @@ def run(ctx: Ctx) -> None:
 
     c06.run(Alias(ctx, "C01.R10", "pipelined requests: the parked reader is released only after the finished stream was torn down (C06.R3/R4), otherwise a buffered request is never started or loses its body", only={"C06.R3", "C06.R4"}))
 
+    from .c11 import upgrade_table
+
+    ctx.rule("C01.R12", "an HTTP/1 request is served by an HTTP application unless it is a GET with Upgrade: websocket and a Connection: upgrade token (decision table shared with C11.R2); HTTP/2: unless it is CONNECT", floor=2)
+    upgrade_table(ctx, "C01.R12")
     from . import c16
 
     c16.run(Alias(ctx, "C01.R11", "both workers realise the same read loop, application wrapper and bounded application queue (C16 skeletons for TCPServer._read_data, _handle, TaskGroup.spawn_app): a one-sided edit changes what one worker delivers", only={"C16.R2"}, where=["TCPServer._read_data", ":_handle", "TaskGroup.spawn_app"]))
